@@ -19,6 +19,7 @@ RULE = ('one evaluation = one seeded single-client history (20-300 API calls inc
 RULE += ' ' + "One history in eight runs in a directory whose name holds characters special to URIs, patterns or shells ('#', '?', '%41', blank, quote, ';', '&', 'file:' prefix, non-ASCII), next to a sibling cache named alike up to that character which must stay untouched; one seed in 97 probes a composite key written with one object in two places against an equal key of distinct objects."
 RULE += ' ' + "Tags include tags that extend one another with ':' '/' '.' '%' '_'; expire / cull / evict are also called with retry=True."
 RULE += ' ' + 'Text keys include one text in composed and decomposed Unicode spelling.'
+RULE += ' ' + 'A quarter of the expire calls pass now= ahead of or behind the clock.'
 ASSUMPTIONS = ['clock frozen within one operation, advanced between operations (ties expire_time == now are reachable)',
                'size_limit is huge in this check: size eviction is C09']
 PROBES = ('cull_expired', 'page_boundary_crossed', 'reopen', 'identity_pairs', 'odd_directory_name')
